@@ -115,7 +115,8 @@ pub fn fresh_txn_id() -> (r: TransactionId) { unimplemented!() }
 /// the wrapped plain session: what it is handed is what the receiving application's links get
 /// `handed`: the transfers handed to the inner session; `delivered`: those of them that reached the receiving link they were posted on
 /// `open`: the input handles on which a multi-frame delivery is in progress (a frame with more=true was handed on, its last frame not yet)
-pub struct InnerS { pub handed: Ghost<Seq<(Transfer, Payload)>>, pub delivered: Ghost<Seq<(Transfer, Payload)>>, pub disposed: Ghost<Seq<Disposition>>, pub open: Ghost<Set<u32>> }
+/// `counted`: transfer frames the inner session has counted in next-incoming-id / remote-outgoing-window / need-flow-count (Session::on_incoming_transfer, unit SESSION [C07.recv.next-incoming-id])
+pub struct InnerS { pub counted: Ghost<nat>, pub handed: Ghost<Seq<(Transfer, Payload)>>, pub delivered: Ghost<Seq<(Transfer, Payload)>>, pub disposed: Ghost<Seq<Disposition>>, pub open: Ghost<Set<u32>> }
 impl InnerS {
     /// S::on_incoming_transfer. On the listener S = ListenerSession, whose on_incoming_transfer (unit ACCSESS, [C15.listener.unattached-not-fatal]) answers Ok(None) WITHOUT delivering anything
     /// when the transfer's handle is not attached at the time of the call, and otherwise routes by whatever link holds that handle number now (unit SESSION, [C11.route.transfer])
@@ -126,6 +127,7 @@ impl InnerS {
             r is Ok ==> final(self).delivered@ == old(self).delivered@.push((transfer, payload)) || final(self).delivered@ == old(self).delivered@,
             r is Err ==> final(self).delivered@ == old(self).delivered@ && final(self).handed@ == old(self).handed@,
             final(self).disposed == old(self).disposed,
+            final(self).counted@ == old(self).counted@ + 1,
             r is Ok ==> final(self).open@ == (if transfer.more { old(self).open@.insert(transfer.handle.0) } else { old(self).open@.remove(transfer.handle.0) }),
     { unimplemented!() }
     #[verifier::external_body]
@@ -133,7 +135,7 @@ impl InnerS {
         ensures
             r is Ok ==> final(self).disposed@ == old(self).disposed@.push(disposition),
             r is Err ==> final(self).disposed@ == old(self).disposed@,
-            final(self).delivered == old(self).delivered, final(self).handed == old(self).handed, final(self).open == old(self).open,
+            final(self).delivered == old(self).delivered, final(self).handed == old(self).handed, final(self).open == old(self).open, final(self).counted == old(self).counted,
     { unimplemented!() }
 }
 
@@ -286,6 +288,7 @@ impl TxnSession {
             &&& !old(self).txns().contains_key(id) ==> r is Err && r->Err_0 is UnknownTxnId && final(self).txns() == old(self).txns()   // [C18.post.unknown] posting to an unknown or finished id is refused, nothing applied
         }),
         transfer.state is Some && transfer.state->Some_0 is TransactionalState && old(self).discharging@.contains(transfer.state->Some_0->TransactionalState_0.txn_id) ==> r is Err && r->Err_0 is UnknownTxnId && final(self).txns() == old(self).txns(),   // [C18.post.after-discharge-refused] a post that arrives after its transaction's discharge (in wire order) is refused with the transaction error, it is not added to the transaction: a discharge takes effect when its frame arrives, not when the coordinator task's request has made its way back through the session's control queue
+        final(self).session.counted@ == old(self).session.counted@ + 1,      // [C07.recv.posted-frames-counted] EVERY transfer frame received is counted in next-incoming-id (and remote-outgoing-window, need-flow-count) when it arrives -- also one that is set aside as a transactional post: the endpoint's flow frames report what it has received, and the peer's view of its outgoing window depends on it (a rolled back post is never counted at all, a committed one only at commit)
         !(transfer.state is Some && transfer.state->Some_0 is TransactionalState) ==> final(self).txns() == old(self).txns()
             && (r is Ok ==> final(self).session.handed@ == old(self).session.handed@.push((transfer, payload))),   // [C18.post.non-transactional-passthrough] a non-transactional transfer goes straight through
 //@@ end
